@@ -18,6 +18,7 @@
   about pairs mixing them.
 -/
 import PsutilModel.Proofs.C02
+import PsutilModel.Proofs.C01Hid
 import PsutilModel.Model.C02Gen
 namespace Psutil.C02
 open Psutil.C01 Psutil.C01.Spec
@@ -410,16 +411,16 @@ theorem C02_isRunning_unknown_start (s : St) (i : Nat) (o : PObj) (ho : s.ps.obj
     | true => simp [hn]
     | false => simp [hn]
 
-/-- histories that may hide `/proc/pid/stat`: only "the published boot time is never 0" is asked -/
-def HistAnyReadability (h : List Ev) : Prop := ∀ e ∈ h, ∀ b, e = .k (.setBtime b) → b ≠ 0
+/-! `HistOKb` (Proofs/C01Hid.lean): histories that may hide `/proc/pid/stat` — only "the published boot time is
+never 0" is asked. -/
 
 def EqIffSame_AnyReadability_Full (c : Cfg) : Prop :=
-  ∀ (b0 : Nat), b0 ≠ 0 → ∀ (h : List Ev), HistAnyReadability h → ∀ (i j : Nat) (a b : PObj),
+  ∀ (b0 : Nat), b0 ≠ 0 → ∀ (h : List Ev), HistOKb h → ∀ (i j : Nat) (a b : PObj),
     (run c (St.init b0) h).ps.objs[i]? = some a → (run c (St.init b0) h).ps.objs[j]? = some b →
     (step c (run c (St.init b0) h) (.c (.eq i j))).2 = .bool (decide (SameIncarnation a b))
 
 def IsRunningIffListed_AnyReadability_Full (c : Cfg) : Prop :=
-  ∀ (b0 : Nat), b0 ≠ 0 → ∀ (h : List Ev), HistAnyReadability h → ∀ (i : Nat) (o : PObj),
+  ∀ (b0 : Nat), b0 ≠ 0 → ∀ (h : List Ev), HistOKb h → ∀ (i : Nat) (o : PObj),
     (run c (St.init b0) h).ps.objs[i]? = some o →
     (step c (run c (St.init b0) h) (.c (.isRunning i))).2 = .bool (listedB (run c (St.init b0) h).kern o)
 
@@ -451,8 +452,7 @@ theorem C02_unknown_start_counterexample :
     decide
   have h1 : (run cfg (St.init 1000) witnessUnknownThenKnown).ps.objs[1]?
       = some ⟨8, some (0 + cfg.clk * 1000), some (0 + cfg.clk * 1000), false, false, 0⟩ := by decide
-  have hok : HistAnyReadability witnessUnknownThenKnown := by
-    intro e he b hb; subst hb; simp [witnessUnknownThenKnown] at he
+  have hok : HistOKb witnessUnknownThenKnown := by decide
   refine ⟨?_, ?_, by decide, by decide, by decide, by decide⟩
   · intro H
     have := H 1000 (by decide) witnessUnknownThenKnown hok 0 1 _ _ h0 h1
